@@ -14,6 +14,7 @@ import (
 	"github.com/cosmos/cosmos-sdk/types/query"
 	"pgregory.net/rapid"
 
+	"github.com/jackalLabs/canine-chain/v4/x/storage"
 	storagetypes "github.com/jackalLabs/canine-chain/v4/x/storage/types"
 
 	"verifharness/chain"
@@ -173,7 +174,7 @@ func c17Invariant(w *storWorld) (string, string) {
 
 func TestC17(t *testing.T) {
 	rec := ev.For("C17")
-	rec.Describe("stateful fork-mode histories (rapid state machine) with every file-affecting action: post (also duplicate keys and several owners), delete, valid proofs, junk proofs, attestation and report forms driven to quorum, provider shutdown and re-init, reward blocks that remove provers and drop prover-less files. After every step: the records under the by-content and by-owner indexes are the same set with byte-identical contents; AllFiles / AllFilesByOwner / AllFilesByMerkle agree with them; every prover list is duplicate-free, no longer than MaxProofs, and each entry resolves (Proof query and built key) to a record pointing back to that file. Non-trivial = a reward block or report removed a prover from a file that had >= 2 provers; distinct = distinct traces.",
+	rec.Describe("stateful fork-mode histories (rapid state machine) with every file-affecting action: post (also duplicate keys and several owners), delete, valid proofs, junk proofs, attestation and report forms driven to quorum, provider shutdown and re-init, reward blocks that remove provers and drop prover-less files. After every step: the records under the by-content and by-owner indexes are the same set with byte-identical contents; AllFiles / AllFilesByOwner / AllFilesByMerkle agree with them; every prover list is duplicate-free, no longer than MaxProofs, and each entry resolves (Proof query and built key) to a record pointing back to that file. At the end of every history the storage genesis is exported and imported into a fresh store, where both listings must hold exactly the files (byte for byte) listed before. Non-trivial = a reward block or report removed a prover from a file that had >= 2 provers; distinct = distinct traces.",
 		"fewer than 10000 files per world (query page limit used)")
 	c := chain.New(chain.GenesisOpts{NumAccounts: 3, Balance: sdk.NewCoins(sdk.NewInt64Coin("ujkl", 1_000_000_000_000_000)),
 		Faucet: sdk.NewCoins(sdk.NewInt64Coin("ujkl", 1_000_000_000_000))})
@@ -353,6 +354,42 @@ func TestC17(t *testing.T) {
 			},
 			"": func(rt *rapid.T) { fail(c17Invariant(w.storWorld)) },
 		})
+		// the two listings must also agree after a restart from an exported genesis (proof records are not part of the
+		// genesis format - a known C19 finding - so only the listings are compared there)
+		{
+			listing := func(ctx sdk.Context, byOwner bool) map[string]string {
+				out := map[string]string{}
+				files := c.App.StorageKeeper.GetAllFileByMerkle(ctx)
+				if byOwner {
+					files = c.App.StorageKeeper.GetAllFileByOwner(ctx)
+				}
+				for _, f := range files {
+					f := f
+					out[fileKey(f.Merkle, f.Owner, f.Start)] = string(c.App.AppCodec().MustMarshal(&f))
+				}
+				return out
+			}
+			before := listing(w.f.Ctx, false)
+			gs := storage.ExportGenesis(w.f.Ctx, c.App.StorageKeeper)
+			fresh := c.Fork(w.f.Height(), w.f.Time())
+			storage.InitGenesis(fresh.Ctx, c.App.StorageKeeper, *gs)
+			m, o := listing(fresh.Ctx, false), listing(fresh.Ctx, true)
+			what := ""
+			switch {
+			case len(m) != len(before) || len(o) != len(before):
+				what = fmt.Sprintf("%d files before the export, %d in the by-content and %d in the by-owner listing after the import", len(before), len(m), len(o))
+			default:
+				for k, v := range before {
+					if m[k] != v || o[k] != v {
+						what = fmt.Sprintf("file %s differs (or is missing) in a listing after the import", k[:16])
+					}
+				}
+			}
+			if what != "" {
+				w.logf("export the storage genesis and import it into a fresh store")
+				failf(rt, rec, "C17/genesis-roundtrip/listings", w.trace, "%s", what)
+			}
+		}
 		rec.Case(removedFromShared, ev.Hash(w.trace...), func() interface{} { return w.trace })
 	})
 }
